@@ -226,6 +226,45 @@ def instrument(rec):
                                     "account": account.type})
     DefaultBarMatcher.match = match_w
 
+    # ---- signal mode: one record per SignalBroker._match() call
+    from rqalpha.mod.rqalpha_mod_sys_simulation.signal_broker import SignalBroker
+    from rqalpha.core.execution_context import ExecutionContext as _EC
+    from rqalpha.const import EXECUTION_PHASE as _PH
+    orig_sig = SignalBroker._match
+    saved[(SignalBroker, "_match")] = orig_sig
+
+    def sig_w(self, account, order):
+        env = self._env
+        pre = osnap(order)
+        captured = []
+        bus = env.event_bus
+        orig_pub = bus.publish_event
+
+        def pub(ev):
+            if ev.event_type == _EV.TRADE:
+                t = ev.trade
+                captured.append({"price": float(t.last_price), "qty": t.last_quantity, "commission": float(t.commission), "tax": float(t.tax), "close_today": t.close_today_amount})
+            return orig_pub(ev)
+        bus.publish_event = pub
+        raised = None
+        try:
+            auction = _EC.phase() == _PH.OPEN_AUCTION
+        except Exception:
+            auction = False
+        try:
+            return orig_sig(self, account, order)
+        except Exception as ex:
+            raised = ex
+            raise
+        finally:
+            try:
+                del bus.publish_event
+            except AttributeError:
+                pass
+            rec.match_calls.append({"signal": True, "stamped": {}, "pre": pre, "post": osnap(order), "turnover": 0, "turnover_after": 0, "cash": float(account.cash),
+                                    "auction": bool(auction), "trades": captured, "raised": type(raised).__name__ if raised else None, "when": rec.now(), "account": account.type})
+    SignalBroker._match = sig_w
+
     # ---- portfolio-level operations
     from rqalpha.portfolio import Portfolio
 
